@@ -40,26 +40,28 @@ type State struct {
 type EventKind int
 
 const (
-	EvCall       EventKind = iota // a call is performed (after its operands)
-	EvAssign                      // assignment / define / inc-dec / var decl / range vars
-	EvSend                        // ch <- v
-	EvRecv                        // <-ch
-	EvReturn                      // explicit return statement (after its results)
-	EvExit                        // implicit return at the end of the body
-	EvPanic                       // call of panic / no-return function: path ends
-	EvFuncLit                     // a function literal value is created
-	EvRangeIter                   // one iteration of a range loop is entered
-	EvClose                       // close(ch)
-	EvDelete                      // delete(m, k)
-	EvSelectCase                  // a select clause is taken (Node = *ast.CommClause)
-	EvTypeCase                    // a type-switch clause is taken (Node = *ast.CaseClause)
-	EvLoopExit                    // a for/range loop is left normally or by break (Node = loop stmt)
-	EvField                       // a watched struct field is read or written (Spec.Watch)
-	EvLoopIter                    // an iteration of a for statement is entered (Node = *ast.ForStmt)
+	EvCall         EventKind = iota // a call is performed (after its operands)
+	EvAssign                        // assignment / define / inc-dec / var decl / range vars
+	EvSend                          // ch <- v
+	EvRecv                          // <-ch
+	EvReturn                        // explicit return statement (after its results)
+	EvExit                          // implicit return at the end of the body
+	EvPanic                         // call of panic / no-return function: path ends
+	EvFuncLit                       // a function literal value is created
+	EvRangeIter                     // one iteration of a range loop is entered
+	EvClose                         // close(ch)
+	EvDelete                        // delete(m, k)
+	EvSelectCase                    // a select clause is taken (Node = *ast.CommClause)
+	EvTypeCase                      // a type-switch clause is taken (Node = *ast.CaseClause)
+	EvLoopExit                      // a for/range loop is left normally or by break (Node = loop stmt)
+	EvField                         // a watched struct field is read or written (Spec.Watch)
+	EvLoopIter                      // an iteration of a for statement is entered (Node = *ast.ForStmt)
+	EvInlineLit                     // the body of a callback literal passed to a call is about to be simulated in place
+	EvInlineLitEnd                  // ... and has been simulated
 )
 
 func (k EventKind) String() string {
-	return [...]string{"call", "assign", "send", "recv", "return", "exit", "panic", "funclit", "range-iter", "close", "delete", "select-case", "type-case", "loop-exit", "field", "loop-iter"}[k]
+	return [...]string{"call", "assign", "send", "recv", "return", "exit", "panic", "funclit", "range-iter", "close", "delete", "select-case", "type-case", "loop-exit", "field", "loop-iter", "inline-lit", "inline-lit-end"}[k]
 }
 
 type Event struct {
@@ -457,7 +459,9 @@ func (c *Ctx) call(x *ast.CallExpr, in []cst, deferred, goStmt bool) []cst {
 	for _, a := range x.Args {
 		if lit, ok := ast.Unparen(a).(*ast.FuncLit); ok && c.spec.InlineLit != nil && !deferred && !goStmt && c.spec.InlineLit(c, lit, x) {
 			// synchronous callback: simulate its body as part of the call
+			in = c.emit(&Event{Kind: EvInlineLit, Node: lit, Pos: lit.Pos(), Lit: lit, Call: x}, in)
 			in = c.inlineLit(lit, in)
+			in = c.emit(&Event{Kind: EvInlineLitEnd, Node: lit, Pos: lit.End(), Lit: lit, Call: x}, in)
 			continue
 		}
 		in = c.expr(a, in)
